@@ -423,6 +423,9 @@ func init() {
 			return it.ufStr("lower", s, func(l string) string { return strings.ToLower(l) })
 		},
 		P + "vExitThread": func(it *Interp, a []Value) Value { panic(abortPath{}) },
+		// vAnyOf / vAllOf: disjunction / conjunction as ONE term, without the path split Go's || and && cause
+		P + "vAnyOf": func(it *Interp, a []Value) Value { return it.boolN("or", it.varargs(a[0])) },
+		P + "vAllOf": func(it *Interp, a []Value) Value { return it.boolN("and", it.varargs(a[0])) },
 		P + "vCurProc":    func(it *Interp, a []Value) Value { return int64(it.sch.cur.proc) },
 		P + "vSetProc":    func(it *Interp, a []Value) Value { it.sch.cur.proc = int(a[0].(int64)); return nil },
 		P + "vGoID":       func(it *Interp, a []Value) Value { return int64(it.sch.cur.id) },
@@ -908,4 +911,28 @@ func (it *Interp) flattenLine(s *StrV, sep string) *StrV {
 		}
 	}
 	return out
+}
+
+func (it *Interp) boolN(op string, args []Value) Value {
+	var terms []string
+	for _, v := range args {
+		if iv, ok := v.(IfaceV); ok {
+			v = iv.v
+		}
+		switch b := v.(type) {
+		case bool:
+			if b == (op == "or") {
+				return b // true in a disjunction, false in a conjunction: decided
+			}
+		case *Sym:
+			terms = append(terms, b.T)
+		}
+	}
+	if len(terms) == 0 {
+		return op == "and"
+	}
+	if len(terms) == 1 {
+		return &Sym{T: terms[0], S: "Bool"}
+	}
+	return &Sym{T: "(" + op + " " + strings.Join(terms, " ") + ")", S: "Bool"}
 }
